@@ -446,8 +446,14 @@ fn meta_case(bytes: &[u8], full: bool) -> CaseOut {
     }
     // read_blocks: every item the iterator yields until it ends
     steps += 1;
-    let items = entry(&mut f, "read_blocks", guarded(|| read_blocks(bytes).collect::<Vec<Result<Block, flac_codec::Error>>>()));
+    // (a byte string of n bytes cannot hold more than n/4 + 1 blocks: an iterator that yields more items than that, errors
+    // included, has stopped making progress — reported here instead of letting the collect exhaust memory)
+    let cap = bytes.len() / 4 + 8;
+    let items = entry(&mut f, "read_blocks", guarded(|| read_blocks(bytes).take(cap + 1).collect::<Vec<Result<Block, flac_codec::Error>>>()));
     if let Some(items) = &items {
+        if items.len() > cap {
+            f.push(("meta|read_blocks|iterator-does-not-terminate".to_string(), format!("read_blocks over {} bytes is still yielding items after {} of them (last: {:?})", bytes.len(), cap, items.last().map(|i| i.as_ref().map(|_| "block").map_err(|e| format!("{e:?}"))))));
+        }
         let in_list = matches!(&list, Some(Ok(_)));
         for it in items {
             if let Ok(Block::Cuesheet(c)) = it {
@@ -511,6 +517,7 @@ fn exec_meta(acc: &mut Acc, base: &str, mode: &str, bytes: &[u8], full: bool) {
         "base" => "meta_cases_base",
         "subst1" => "meta_cases_subst1",
         "truncate" => "meta_cases_truncate",
+        "utf8-overwrite" => "meta_cases_utf8-overwrite",
         "length-forced" => "meta_cases_length-forced",
         _ => "meta_cases_subst2",
     });
@@ -545,6 +552,18 @@ fn meta(ctx: &Ctx, acc: &mut Acc) {
                 let mut m = sec.clone();
                 m[i] = v;
                 exec_meta(acc, name, "subst1", &m, true);
+            }
+        }
+        // multi-byte UTF-8 sequences over every position (a character straddling a slice point of a validated text field
+        // cannot come from a single-byte substitution)
+        for i in 4..sec.len() {
+            for seq in [&[0xC3u8, 0xA9][..], &[0xE2, 0x82, 0xAC], &[0xF0, 0x9F, 0x98, 0x80], &[0x41, 0xC3, 0xA9]] {
+                if i + seq.len() > sec.len() || !ctx.mine() {
+                    continue;
+                }
+                let mut m = sec.clone();
+                m[i..i + seq.len()].copy_from_slice(seq);
+                exec_meta(acc, name, "utf8-overwrite", &m, true);
             }
         }
         // every truncation
